@@ -239,7 +239,11 @@ def do_borrow(ds: DetSched, env: dict[str, Any], cfg: dict[str, Any], ti: int, j
     from vgi_rpc.rpc import AnnotatedBatch, RpcError
 
     pool = env["pool"]
-    base = (ti * 10 + ji) * 20
+    base = (ti * 10 + ji) * 20  # every number this borrow sends lies in [base, base + 20): whatever comes back must too
+
+    def own(n: int) -> bool:
+        return base <= n < base + 20
+
     cb = make_cb(spec.get("cb"))
     ds.emit("connect", key)
     entered = False
@@ -275,7 +279,7 @@ def do_borrow(ds: DetSched, env: dict[str, Any], cfg: dict[str, Any], ti: int, j
                             v = svc.noisy(k=num, n=op[1])
                         else:
                             v = svc.bad(k=num)
-                        if v != num:
+                        if v != num and not (isinstance(v, int) and own(v)):
                             env["foreign"].append(["unary", name, num, v])
                     elif name == "open":
                         cls = "openFail"
@@ -285,7 +289,7 @@ def do_borrow(ds: DetSched, env: dict[str, Any], cfg: dict[str, Any], ti: int, j
                             s = svc.prod(tag=num, n=op[2], logs=op[3])
                         elif kind == "prodh":
                             s = svc.prodh(tag=num, n=op[2], logs=op[3])
-                            if s.header is None or s.header.h != num:
+                            if s.header is None or not own(s.header.h):
                                 env["foreign"].append(["header", num, getattr(s.header, "h", None)])
                         elif kind == "exch":
                             s = svc.exch(tag=num, logs=op[3])
@@ -299,7 +303,7 @@ def do_borrow(ds: DetSched, env: dict[str, Any], cfg: dict[str, Any], ti: int, j
                         try:
                             ab = sess.tick()
                             x = ab.batch.column("x")[0].as_py()
-                            if x // 1000 != stag:  # (an earlier on_log exception may have left OWN batches behind)
+                            if not own(x // 1000):  # (own batches of an earlier read / an overlapped stream are not foreign)
                                 env["foreign"].append(["tick", stag, seen, x])
                             seen += 1
                         except StopIteration:
@@ -307,13 +311,13 @@ def do_borrow(ds: DetSched, env: dict[str, Any], cfg: dict[str, Any], ti: int, j
                     elif name == "iter":
                         for ab in sess:
                             x = ab.batch.column("x")[0].as_py()
-                            if x // 1000 != stag:
+                            if not own(x // 1000):
                                 env["foreign"].append(["iter", stag, seen, x])
                             seen += 1
                     elif name == "send":
                         ab = sess.exchange(AnnotatedBatch.from_pydict({"v": [op[1]]}, schema=poolsim.IN_SCHEMA))
                         x = ab.batch.column("x")[0].as_py()
-                        if x // 1000 != stag:
+                        if not own(x // 1000):
                             env["foreign"].append(["send", stag, op[1], x])
                     elif name == "sendbad":
                         sess.exchange(AnnotatedBatch.from_pydict({"zz": [1]}))
@@ -550,7 +554,13 @@ def judge(ctx: Any, cfg: dict[str, Any], run: Any, an: dict[str, Any], env: dict
         return
     real = env["real"]
     got = {k: model[k] for k in real}
-    got["busy"] = [t for t in got["busy"] if t != 0]  # thread 0 is the pool's daemon reaper, unwound wherever it is
+    if 0 in got["busy"]:
+        # thread 0 is the pool's daemon reaper: the run ends when the job threads are done and unwinds it wherever it is —
+        # possibly inside its critical section, whose effect the model has already applied at the acquire
+        got["busy"] = [t for t in got["busy"] if t != 0]
+        if got["locked"]:
+            got["locked"] = False
+            got["idle"] = real["idle"]
     if got != real:
         ctx.mismatch(case, got, real, "final state: model vs implementation")
 
@@ -782,7 +792,7 @@ def run(ctx: Any) -> None:
     thorough = ctx.tier == "thorough"
     check_meta(ctx, PM)
     bound = 3 if thorough else 2
-    per = ctx.budget(42, 300)
+    per = ctx.budget(42, 600)
     cfgs: list[tuple[dict[str, Any], int, int, int]] = []
     for c in CORPUS:
         cfgs.append((dict(c, src=c.get("src", "corpus")), per, bound, per // 6))
@@ -792,8 +802,8 @@ def run(ctx: Any) -> None:
     if not thorough:
         fam = fam[:: max(1, len(fam) // ctx.budget(48, 10**6))]
     for c in fam:
-        cfgs.append((c, ctx.budget(3, 20), bound, ctx.budget(1, 10)))
-    for i in range(ctx.budget(12, 100)):
+        cfgs.append((c, ctx.budget(3, 30), bound, ctx.budget(1, 10)))
+    for i in range(ctx.budget(12, 140)):
         c = gen_cfg(rng)
         if i % 4 == 3:
             c["lines"] = True
@@ -810,7 +820,7 @@ def run(ctx: Any) -> None:
 
 def replay(ctx: Any, case: dict[str, Any]) -> None:
     PM = _mod()
-    if "meta" in case or "validate" in case:
+    if case is None or "meta" in case or "validate" in case:  # (a `no-longer-checks` replay file carries its cases in `broken`)
         check_meta(ctx, PM)
         return
     cfg = case["conc"]
